@@ -812,6 +812,7 @@ func runC27(ctx *ev.Ctx, c c27Case) {
 					// would have left) so that the search continues behind it
 					restoreStore(w, before)
 					ctx.Label("eth:number-wrap-accepted(known finding, call undone)")
+					nodes[wrapNode].exclude = true // observed once per case; not offered again
 					continue
 				}
 				ctx.Failf("%s: call succeeded although %s", what, why)
